@@ -33,6 +33,10 @@ type Op struct {
 	F string  `json:"f,omitempty"`
 	L [][]int `json:"l,omitempty"`
 	X any     `json:"x,omitempty"`
+	// NP: in a linear recording the instance is NOT observed after this call (no projection), so that
+	// stretches of calls run without any query in between; the flag travels with the path, a
+	// re-execution observes at the same places.
+	NP bool `json:"np,omitempty"`
 }
 
 // Res is the uniformly typed result of an operation (DESIGN 3.3): an ok
@@ -376,7 +380,14 @@ type LinearSet struct {
 	roots []int
 	next  int
 	zero  any
+	// sparse: most calls of the chains recorded into this file are left unobserved (Op.NP)
+	sparse *rand.Rand
 }
+
+// SparseSeed, when non-zero, makes the linear sets created next sparse (see Op.NP): about 5 of 6
+// calls are not followed by an observation.  Observers that memoise, and anything else that only
+// shows when no query comes in between two calls, need such stretches.
+var SparseSeed int64
 
 // NewLinearSet starts a trace file of linear recordings.
 func NewLinearSet(file string, zeroProj any) (*LinearSet, error) {
@@ -385,6 +396,9 @@ func NewLinearSet(file string, zeroProj any) (*LinearSet, error) {
 		return nil, err
 	}
 	ls := &LinearSet{f: f, w: bufio.NewWriterSize(f, 1<<20), next: 2, zero: zeroProj}
+	if SparseSeed != 0 {
+		ls.sparse = rand.New(rand.NewSource(SparseSeed))
+	}
 	if CrumbOn {
 		ls.crumb, _ = os.Create(file + ".crumb")
 	}
@@ -405,6 +419,9 @@ func (ls *LinearSet) Run(s Sys, gen func(step int) (Op, bool)) (steps int, panic
 		if !ok {
 			break
 		}
+		if ls.sparse != nil && step > 0 && ls.sparse.Intn(6) != 0 {
+			op.NP = true
+		}
 		var r Res
 		var pr any = ls.zero
 		if Hung.Load() {
@@ -416,7 +433,7 @@ func (ls *LinearSet) Run(s Sys, gen func(step int) (Op, bool)) (steps int, panic
 		}
 		if !guarded(func() {
 			r = Exec(s, op)
-			if !r.P {
+			if !r.P && !op.NP {
 				pr = s.Proj()
 			}
 		}) {
